@@ -363,6 +363,10 @@ type caseData struct {
 	Seed  int64  `json:"seed,omitempty"`  // random
 	N     int    `json:"n,omitempty"`     // random: number of types
 	Depth int    `json:"depth,omitempty"` // random
+	// cross: a show in a rendered file / called macro (cross.go)
+	Mode   string `json:"mode,omitempty"`   // render | macro | import-macro
+	Enc    string `json:"enc,omitempty"`    // position of the call in the caller
+	Callee string `json:"callee,omitempty"` // restrict to one callee position (replays)
 }
 
 func (prop) Work(c core.Case) core.Result {
@@ -383,6 +387,17 @@ func (prop) Work(c core.Case) core.Result {
 		}
 	case "declared":
 		w.checkDeclared(cd.Type)
+	case "cross":
+		ei := -1
+		for i, c := range contexts {
+			if c.name == cd.Enc {
+				ei = i
+			}
+		}
+		if ei < 0 {
+			return core.Result{Status: core.Inconclusive, Detail: "unknown position " + cd.Enc}
+		}
+		w.checkCross(cd.Mode, ei, cd.Callee, cd.Type)
 	case "random":
 		r := core.Rand(cd.Seed, "c09-random")
 		for i := 0; i < cd.N; i++ {
@@ -635,7 +650,7 @@ func (prop) Drive(d *core.Driver) error {
 		nvals += len(en.values)
 	}
 	d.T.Exhaustive = true
-	d.T.Rule = fmt.Sprintf("the complete table of %d types (every basic kind, named variants, byte slices, Stringer/error/EnvStringer implementers by value and by pointer, the five trusted types, implementers of the ten format Stringer interfaces, time types, arrays/slices/maps/structs/pointers/func/chan/unsafe.Pointer, and %d interface static types with dynamic values) x %d positions (the 14 contexts, read back from scriggo's parsed tree, plus URL/srcset/script/style/JSON-LD positions) x {static, boxed in any} x >=4 values each is enumerated completely; plus %d types declared in the template itself, plus seeded random composite types (reflect-built, depth<=3). "+
+	d.T.Rule = fmt.Sprintf("the complete table of %d types (every basic kind, named variants, byte slices, Stringer/error/EnvStringer implementers by value and by pointer, the five trusted types, implementers of the ten format Stringer interfaces, time types, arrays/slices/maps/structs/pointers/func/chan/unsafe.Pointer, and %d interface static types with dynamic values) x %d positions (the 14 contexts, read back from scriggo's parsed tree, plus URL/srcset/script/style/JSON-LD positions) x {static, boxed in any} x >=4 values each is enumerated completely; plus %d types declared in the template itself, plus seeded random composite types (reflect-built, depth<=3); plus the cross family: the show sits in a rendered file, in a macro of the same file or in a macro of an imported file (every position of the table) and the call sits at every position of the caller, for 29 representative types (relation: no run-time failure if the pair builds; transparent and plain-attribute calls reproduce the callee's own output). "+
 		"evaluations = Run calls + statically rejected (type, context) pairs; distinct_nontrivial counts distinct (position, type, static verdict) triples observed", len(tab), 15, len(contexts), len(basicKinds))
 	d.T.Assumptions = []string{
 		"a run-time failure counts when Run returns an error containing \"cannot show\" or panics in the host; other Run errors are reported as inconclusive (outside the property text)",
@@ -653,6 +668,13 @@ func (prop) Drive(d *core.Driver) error {
 	for _, k := range basicKinds {
 		cases = append(cases, core.NewCase("declared-"+k, caseData{Kind: "declared", Type: k}))
 	}
+	for _, mode := range crossModes {
+		for _, c := range contexts {
+			cases = append(cases, core.NewCase("cross-"+mode+"-"+c.name, caseData{Kind: "cross", Mode: mode, Enc: c.name}))
+		}
+	}
+	d.T.Set("cross_types", crossTypes)
+	d.T.Sample(map[string]any{"case": "cross-render-URLPath(QuotedAttr)", "meaning": "<a href=\"{{ render \"p.EXT\" }}\"> with p.EXT = every position of the table holding {{ v }}, v of 29 representative types; the pair must not fail at run time if it builds; transparent calls must reproduce the callee's own output"})
 	nr := d.N(16, 400)
 	for i := 0; i < nr; i++ {
 		cases = append(cases, core.NewCase(fmt.Sprintf("random-%d", i), caseData{Kind: "random", Seed: d.Seed*1000003 + int64(i), N: d.N(6, 12), Depth: 3}))
